@@ -9,16 +9,14 @@ import GocoinV.Proofs.C12
 import GocoinV.Proofs.C12Inv
 import GocoinV.Proofs.C12Rbf
 import GocoinV.Proofs.C12Sort
+import GocoinV.Proofs.C12Compose
 namespace GocoinV.Props.C12
 open GocoinV.Mempool
 
 /-- The model's GetSortedMempoolSlow (what buildSortedList installs as the BestT2S…WorstT2S list whenever the
     list is dirty, and what GetSortedMempool returns then) places every in-pool parent (MemInputs flag) before
     its child — for every pool state, however it was reached. -/
--- OPEN: the composition `pool_inv ∧ sorted_parents_first ∧ sorted_complete ∧ rbf_listing_valid ⇒ hypotheses of
--- template_valid for the block built from sortedRBF` is not stated as a theorem: `hsp`/`hpf` of template_valid
--- (and the hypothesis `hpar` of sorted_complete: flagged parents are pooled) follow from the unproved "spendable"
--- conjunct of pool_inv.
+-- (the composition with the pool invariant is `template_from_pool` below)
 theorem sorted_parents_first (K : Keys) (s : State) : ParentsFirst K (sortedSlowP K s) := by
   unfold sortedSlowP
   exact foldl_slowStep_PF K _ _ _ (by simp [ParentsFirst, PFfrom])
@@ -85,12 +83,8 @@ theorem dup_input_refused (K : Keys) (mf : Nat) (s : State) (t : Tx) (fl : Flags
     BIDX does not collide on their txids; the UIdx of one of their inputs equals the UIdx of an output slot of one
     of them only if the input names that transaction; a txid determines the transaction; every transaction has
     an input; the spending relation is acyclic (`rank`).
-    -- OPEN: `pool_inv : ∀ ops, Inv K (run K {} ops)` with the further conjuncts of DESIGN §6 — every input is an
-    unspent confirmed output or an output of a pooled record and MemInputs says which, nothing pooled is confirmed,
-    Fee = Σin − Σout / Volume, TransactionsToSendWeight = Σ weights, ring / WaitingForInputs / RejectedSpentOutputs
-    consistent — is NOT proved. These conjuncts need the chain side (blocks valid against the UTXO set, undo data
-    consistent with the blocks) as further hypotheses on the history; they are checked on the real pool after
-    every operation by the harness predicate only. -/
+    The further conjuncts (spendable inputs with MemInputs, nothing pooled confirmed, Fee/Volume, weight total) are
+    `pool_inv` below; they need the chain side as hypotheses on the history. -/
 theorem pool_inv_struct (K : Keys) (W : Tx → Prop) (rank : TxId → Nat) (U : Univ K W rank) (ops : List Op)
     (hW : ∀ op ∈ ops, ∀ t ∈ op.txs, W t) : InvS K (run K {} ops) :=
   (run_InvR U ops {} (InvR_init K W) hW).str
@@ -178,6 +172,94 @@ theorem rbf_listing_valid (K : Keys) (s : State) (l : List Nat) (pks : List Pkg)
     (fun pk hpk => pkgOK_fits K s l hall pk (hp pk hpk)) ⟨List.nodup_nil, by simp, trivial⟩ (by simp)
   exact ⟨h1.nodup, fun b => ⟨h1.sub b, h2 b⟩, (pfKeys_iff K s _ []).mpr h1.pf⟩
 
+/-- THE POOL INVARIANT OVER ALL HISTORIES (conjuncts (a)–(c) of DESIGN §6 C12). Start from an empty pool over an
+    arbitrary confirmed set `u0` (`genesis`), apply ANY history `ops` of the modelled operations (submissions from
+    peers / trusted peers / the wallet incl. replacement and orphan resolution, connected blocks, undone blocks, tip
+    moves, expiry with children, eviction, re-sorting, BlockCommitInProgress, save + reload). If the process is alive
+    in the final state (`panicked = false`: no Go panic / os.Exit was reached — the flag is sticky, so none was
+    reached on the way either), then `PoolInv` holds there:
+    (a) every input of a pooled transaction is an existing output of a pooled transaction (MemInputs flag set) or an
+        unspent confirmed output (flag clear); MemInputs is nil or one flag per input and MemInputCnt counts the flags;
+    (b) nothing pooled is confirmed: no unspent confirmed output carries a pooled txid and no connected block
+        contains a pooled transaction (with (a): nothing pooled conflicts with the chain);
+    (c) Volume = Σ input values and Fee + Σ output values = Volume in the code's uint64 arithmetic (`ν` = the value
+        of an outpoint), no pooled transaction spends an outpoint twice, TransactionsToSendWeight = Σ weights
+        (sizes are fields of the modelled transaction, hence exact by construction);
+    plus the structural part (`pool_inv_struct`).
+    Hypotheses. `Univ2`, about the set `W` of transactions of the history only: `Univ` (above), BIDX / UIdx do not
+    collide on the txids in play, no transaction of the history has an output in `u0`, `ν` gives the output values.
+    `AdmRun`, about the chain side only (it reads nothing but the confirmed set and the undo stack of the state each
+    `block` / `undo` operation is applied to): every connected block satisfies `ConnectSound` (what C04's
+    `connect_sound` establishes: the resulting confirmed set is consistent — inputs of connected transactions are
+    spent and name confirmed txids, unspent outputs belong to confirmed txids with the right values — unspent outputs
+    not spent by the block stay, outputs created and not spent by the block are unspent, the block's txids are new
+    and pairwise different) and every undo satisfies `UndoCommitTxs` (what C06's `undo_commitTxs` establishes: the
+    confirmed set is consistent again, the block's outputs are gone, everything else that was unspent stays).
+    -- OPEN (d): consistency of the reject ring / WaitingForInputs / RejectedSpentOutputs indexes over all histories is
+    not proved (checked by the harness against the real pool and MempoolCheck after every operation only).
+    -- OPEN: `ConnectSound` / `UndoCommitTxs` are hypotheses about the model's own chain simulation (connectUtxo /
+    disconnectUtxo); they are not derived here from a block-validity predicate on that simulation. -/
+theorem pool_inv (K : Keys) (W : Tx → Prop) (rank : TxId → Nat) (u0 : UT) (ν : OutPoint → Nat)
+    (U : Univ2 K W rank u0 ν) (cfg : Cfg) (h0 : Nat) (ops : List Op)
+    (hW : ∀ op ∈ ops, ∀ t ∈ op.txs, W t) (ha : AdmRun K u0 ν (genesis cfg u0 h0) ops)
+    (alive : (run K (genesis cfg u0 h0) ops).panicked = false) :
+    PoolInv K ν (run K (genesis cfg u0 h0) ops) := by
+  have f := run_full U ops _ (full_genesis U cfg h0) hW ha
+  exact PoolInv.of_good f.chain (f.good alive)
+
+/-- … and every single operation keeps the carried invariant (`Full` = structural invariant ∧ consistent chain side ∧
+    the pool invariant whenever the process is alive), from any state, given the operation is admissible there. -/
+theorem pool_inv_full_step (K : Keys) (W : Tx → Prop) (rank : TxId → Nat) (u0 : UT) (ν : OutPoint → Nat)
+    (U : Univ2 K W rank u0 ν) (s : State) (op : Op) (h : Full K W u0 ν s) (hW : ∀ t ∈ op.txs, W t)
+    (ha : AdmOp u0 ν s op) : Full K W u0 ν (step K s op) :=
+  step_full U s op h hW ha
+
+/-- (e) THE COMPOSITION: in every state reached by an admissible history in which the process is alive, the block body
+    built from the listing of GetSortedMempoolRBF (`sortedRBF`: the sorted list merged with fee packages that pass
+    `pkgOK`) is accepted by the input-availability rules of commitTxs (`BlockOK` against the confirmed set of that
+    state): `pool_inv` + `sorted_complete` + `sorted_parents_first` + `rbf_listing_valid` supply exactly the four
+    hypotheses of `template_valid`.
+    `hsorted` concerns the incrementally maintained BestT2S…WorstT2S list only: when the list is dirty
+    (`sortDirty`, e.g. after every block, reload, or flag change) GetSortedMempool rebuilds it with
+    GetSortedMempoolSlow and the hypothesis is void.
+    -- OPEN: that AddToSort / DelFromSort keep the non-dirty list a duplicate-free, complete, parents-first listing
+    over all histories is not proved (the harness has the model check it on gocoin's list before every comparison). -/
+theorem template_from_pool (K : Keys) (W : Tx → Prop) (rank : TxId → Nat) (u0 : UT) (ν : OutPoint → Nat)
+    (U : Univ2 K W rank u0 ν) (cfg : Cfg) (h0 : Nat) (ops : List Op)
+    (hW : ∀ op ∈ ops, ∀ t ∈ op.txs, W t) (ha : AdmRun K u0 ν (genesis cfg u0 h0) ops)
+    (alive : (run K (genesis cfg u0 h0) ops).panicked = false) (pks : List Pkg)
+    (hp : ∀ pk ∈ pks, pkgOK K (run K (genesis cfg u0 h0) ops) pk = true)
+    (hsorted : (run K (genesis cfg u0 h0) ops).sortDirty = false →
+      (run K (genesis cfg u0 h0) ops).sorted.Nodup ∧
+      pfKeys K (run K (genesis cfg u0 h0) ops) [] (run K (genesis cfg u0 h0) ops).sorted = true ∧
+      ∀ b t, (run K (genesis cfg u0 h0) ops).pool.get? b = some t → b ∈ (run K (genesis cfg u0 h0) ops).sorted) :
+    BlockOK (fun o => ((run K (genesis cfg u0 h0) ops).utxo.get? o).isSome)
+      ((recsOf (run K (genesis cfg u0 h0) ops) (sortedRBF K (run K (genesis cfg u0 h0) ops) pks)).map (·.tx)) := by
+  have f := run_full U ops _ (full_genesis U cfg h0) hW ha
+  generalize run K (genesis cfg u0 h0) ops = s at *
+  have g := f.good alive
+  -- the sorted list is a duplicate-free complete parents-first listing
+  have hl : (getSorted K s).Nodup ∧ pfKeys K s [] (getSorted K s) = true ∧
+      ∀ b t, s.pool.get? b = some t → b ∈ getSorted K s := by
+    unfold getSorted
+    cases hd : s.sortDirty with
+    | true =>
+      simp only [if_true]
+      obtain ⟨l1, l2, l3⟩ := sortedSlow_listing U s g
+      exact ⟨l1, (pfKeys_iff K s _ []).mpr l3, l2⟩
+    | false => simpa using hsorted hd
+  obtain ⟨r1, _, r3⟩ := rbf_listing_valid K s (getSorted K s) pks hl.1 hl.2.1 hl.2.2 hp
+  have pf := (pfKeys_iff K s _ []).mp r3
+  exact template_valid K s (recsOf s (sortedRBF K s pks)) (listing_hnd s g _) (listing_hconf s g _ r1)
+    (listing_hsp s g _) (listing_hpf s g _ pf)
+
+/-- Fee exactness in ℕ: when the input values of a pooled transaction do not overflow uint64 (always the case for
+    real coins), Fee = Σ inputs − Σ outputs exactly. -/
+theorem fee_exact (K : Keys) (ν : OutPoint → Nat) (s : State) (h : PoolInv K ν s) (b : Nat) (t : T2S)
+    (hb : s.pool.get? b = some t) : t.fee = sumν ν t.tx.ins 0 - sumU64 t.tx.outs := by
+  obtain ⟨h1, h2⟩ := h.fee b t hb
+  omega
+
 /-! non-vacuity -/
 
 def K0 : Keys := { bidx := id, uidx := fun a b => a * 1000 + b }
@@ -238,5 +320,68 @@ def txC : Tx := { id := 10, ins := [⟨1, 0, 0⟩, ⟨8, 0, 0⟩], outs := [1], 
 example : (processTx K0 0 s2 txC {}).1 = R_BAD_INPUT := by decide
 example : (processTx K0 0 s2 txC { trusted := true, loc := true }).1 = R_BAD_INPUT := by decide
 example : (evict K0 s2 [8, 7]).isSome = true := by decide
+
+/-- a universe, an initial confirmed set and a value oracle for which the hypotheses of `pool_inv` hold, and an
+    admissible history over it that fills the pool (chain of two) -/
+def K3 : Keys := { bidx := id, uidx := fun a v => a + 16 * v }
+def u3 : UT := [((1, 0), ⟨60, 1, false⟩)]
+def ν3 : OutPoint → Nat := fun o => if o.1 = 1 then 60 else if o.1 = 7 then [50].getD o.2 0 else [40].getD o.2 0
+def ops3 : List Op := [.tip 5, .submitNet txB false 0, .submitNet txA false 0, .resort, .reload]
+
+theorem univ3 : Univ2 K3 W2 id u3 ν3 := by
+  have play : ∀ a : Nat, Play W2 a → a = 1 ∨ a = 7 ∨ a = 8 := by
+    rintro a (⟨t, ht, rfl⟩ | ⟨t, ht, i, hi, rfl⟩)
+    · rcases ht with rfl | rfl <;> simp [txA, txB]
+    · rcases ht with rfl | rfl <;> simp [txA, txB] at hi <;> subst hi <;> simp
+  refine ⟨⟨?_, ?_, ?_, ?_, ?_⟩, ?_, ?_, ?_, ?_, ?_⟩
+  · intro a b _ _ h; exact h
+  · intro c t hc ht i hi v h
+    simp only [K3] at h
+    rcases hc with rfl | rfl <;> rcases ht with rfl | rfl <;> simp [txA, txB] at hi <;> subst hi <;>
+      simp [txA, txB] at h ⊢ <;> omega
+  · intro a b ha hb h
+    rcases ha with rfl | rfl <;> rcases hb with rfl | rfl <;> first | rfl | (simp [txA, txB] at h)
+  · intro a ha; rcases ha with rfl | rfl <;> simp [txA, txB]
+  · intro a ha i hi
+    rcases ha with rfl | rfl <;> simp [txA, txB] at hi <;> subst hi <;> decide
+  · intro a b _ _ h; exact h
+  · intro (a : Nat) (b : Nat) (v : Nat) (w : Nat) ha hb h
+    have h' : a + 16 * v = b + 16 * w := h
+    clear h
+    have pa := play a ha
+    have pb := play b hb
+    clear ha hb play
+    show (a : Nat) = b ∧ v = w
+    rcases pa with rfl | rfl | rfl <;> rcases pb with rfl | rfl | rfl <;> omega
+  · intro t ht v
+    rcases ht with rfl | rfl <;> simp [u3, txA, txB, AList.get?]
+  · intro t ht v
+    rcases ht with rfl | rfl <;> simp [ν3, txA, txB]
+  · intro o c h
+    simp only [u3, AList.get?] at h
+    split at h
+    · rename_i e; cases h; simp [ν3, ← e]
+    · cases h
+
+example : PoolInv K3 ν3 (run K3 (genesis {} u3 0) ops3) := by
+  apply pool_inv K3 W2 id u3 ν3 univ3 {} 0 ops3
+  · intro op ho t ht
+    simp only [ops3, List.mem_cons, List.not_mem_nil, or_false] at ho
+    rcases ho with rfl | rfl | rfl | rfl | rfl <;> simp [Op.txs] at ht <;> simp [W2, ht]
+  · simp [ops3, AdmRun, AdmOp]
+  · decide
+example : ((run K3 (genesis {} u3 0) ops3).pool.map (·.1)) = [8, 7] ∨ ((run K3 (genesis {} u3 0) ops3).pool.map (·.1)) = [7, 8] := by decide
+example : BlockOK (fun o => ((run K3 (genesis {} u3 0) ops3).utxo.get? o).isSome)
+    ((recsOf (run K3 (genesis {} u3 0) ops3) (sortedRBF K3 (run K3 (genesis {} u3 0) ops3) [])).map (·.tx)) := by
+  refine template_from_pool K3 W2 id u3 ν3 univ3 {} 0 ops3 ?_ ?_ ?_ [] ?_ ?_
+  · intro op ho t ht
+    simp only [ops3, List.mem_cons, List.not_mem_nil, or_false] at ho
+    rcases ho with rfl | rfl | rfl | rfl | rfl <;> simp [Op.txs] at ht <;> simp [W2, ht]
+  · simp [ops3, AdmRun, AdmOp]
+  · decide
+  · intro pk hpk; simp at hpk
+  · intro h; exact absurd h (by decide)
+example : (recsOf (run K3 (genesis {} u3 0) ops3) (sortedRBF K3 (run K3 (genesis {} u3 0) ops3) [])).map (·.tx.id) = [7, 8] := by
+  decide
 
 end GocoinV.Props.C12
